@@ -122,12 +122,18 @@ theorem storedDenote_plain (r : Cps) (hr : ∀ c ∈ r, c ≠ cBackslash) : stor
       simp only [storedDenote, hc, if_false]
       rw [ih (fun x hx => hr x (by simp [hx]))]
 
-/-- **URLs**: for every URL without a backslash whose characters are all either legal in an unquoted `url()` or
-among those `helper.uri` quotes for (i.e. no control character of `C18-url-control-char`), the written `url(...)`
-— quoted or not, as `helper.uri` decides — is readable and denotes exactly that URL -/
-theorem helperUri_denotes (r : Cps) (hr : ∀ c ∈ r, c ≠ cBackslash)
-    (hc : ∀ c ∈ r, isUrlChar c = true ∨ forbiddenInUri c = true) :
+/-- every character is legal in an unquoted `url()` or makes `helper.uri` quote the URL -/
+theorem urlChar_or_forbidden (c : Nat) : isUrlChar c = true ∨ forbiddenInUri c = true := by
+  by_cases h : c < 0x80
+  · have : ∀ k : Fin 0x80, isUrlChar k.val = true ∨ forbiddenInUri k.val = true := by decide
+    exact this ⟨c, h⟩
+  · left; simp [isUrlChar]; omega
+
+/-- **URLs**: for every URL without a backslash the written `url(...)` — quoted or not, as `helper.uri` decides —
+is readable and denotes exactly that URL -/
+theorem helperUri_denotes (r : Cps) (hr : ∀ c ∈ r, c ≠ cBackslash) :
     writtenUrlDenote (helperUri r) = some r := by
+  have hc : ∀ c ∈ r, isUrlChar c = true ∨ forbiddenInUri c = true := fun c _ => urlChar_or_forbidden c
   unfold helperUri writtenUrlDenote
   by_cases hf : r.any forbiddenInUri = true
   · -- quoted
